@@ -371,7 +371,7 @@ def no_feedback(prog: Program, rep) -> None:
                     s = facts_for(fi).stmt_of(node)
                     ok = s is not None and any(observer_fact(f) for f in s.facts)
                 rep.check(ok, "observer-no-feedback", fi.qualname, U(node), f"the controller slot `{node.attr}` is read only by observer code", fi.loc(node))
-    rep.pin("feedback-relevant reads classified", n, 8)
+    rep.pin("feedback-relevant reads classified", n, 5)
 
 
 def containment(prog: Program, rep, x: ExcFlow, obs_funcs, regions) -> None:
